@@ -3,7 +3,7 @@
 
 use crate::c03::{build, Config};
 use crate::dec::*;
-use crate::explore::{n_threads, par_map};
+use crate::explore::{n_threads, par_map, Tape};
 use crate::report::{fnv, hex, Report};
 use serde_json::json;
 
@@ -92,6 +92,20 @@ pub fn main(args: &crate::Args) {
             }
         }
     }
+    // every RCT kind (rct_type % 7 = 0..6) and every permutation class through the 16-bit row kernels, on widths around the lane counts
+    for &w in &[1usize, 2, 7, 8, 9, 15, 16, 17, 31, 33, 64, 70] {
+        for &h in &[1usize, 3, 8] {
+            for t in 1..=12u32 {
+                for &p in &[0u32, 7] {
+                    let mut c = base(w, h);
+                    c.transform = t;
+                    c.pattern = p;
+                    c.layout = 1;
+                    cfgs.push(c);
+                }
+            }
+        }
+    }
     // neighbourhood of the C03 default restricted to depths <= 12: trees, coders, depths, layouts with alpha
     for tree in 0..crate::c03::N_TREES {
         for depth in [1u32, 8, 12] {
@@ -129,7 +143,41 @@ pub fn main(args: &crate::Args) {
             }
         }
     }
-    rep.rule = format!("all shapes W x H over {{1..70}}{} x 13 transform stacks (none, RCT 6/13/34, squeeze default/explicit-h/explicit-vh, palette explicit/delta/implicit-delta, RCT+squeeze, 3-step squeeze, palette+squeeze) x 2 (quick) / 3 sample patterns on 12-bit images, plus all 36 tree shapes x depths 1/8/12 x layouts with extra channels; every stream declares modular_16bit_buffers only when jxlw's forward pass proves every intermediate fits i16; oracle: default decode == force_wide_buffers decode on every integer of every channel. Non-trivial = stream is 16-bit truthful and decodes; distinct by configuration.", if quick { "" } else { " u {127,128,129,255,256,257}" });
+    // VarDCT colour + Modular-coded alpha (the other kind of stream the statement names): shapes x alpha depth x filters
+    {
+        let sizes: Vec<(usize, usize)> = if quick { (1..=40).step_by(3).flat_map(|w| [(w, 9usize), (w, 17)]).collect() } else { (1..=70).flat_map(|w| [(w, 1usize), (w, 9), (w, 17), (w, 33)]).collect() };
+        let jobs: Vec<((usize, usize), u32, bool)> = sizes.iter().flat_map(|&s| [(s, 8u32, false), (s, 12, false), (s, 12, true)]).collect();
+        let res = par_map(&jobs, n_threads(), |_, &(size, bits, filters)| {
+            let mut t = Tape::default();
+            let mut c = crate::c17::cfg_from(&mut t);
+            c.size = size;
+            c.pattern = 5;
+            let spec = crate::c17::spec_of(&c, seed ^ 0xa1);
+            let bytes = spec.write_codestream_with(&jxlw::jpeg::StreamOpts { filters, alpha_bits: bits, ..Default::default() });
+            let narrow = decode_planes(&bytes, &DecOpts { wide: false, pool: None });
+            let wide = decode_planes(&bytes, &DecOpts { wide: true, pool: None });
+            match (narrow, wide) {
+                (Ok(n), Ok(w)) if n == w => Ok(()),
+                (Ok(_), Ok(_)) => Err(("narrow-wide-differ:vardct-alpha".to_string(), format!("VarDCT {}x{} with {bits}-bit alpha (filters {filters}): narrow and wide decodes differ", size.0, size.1), bytes)),
+                (a, b) => Err(("vardct-alpha-decode".to_string(), format!("VarDCT {}x{} with {bits}-bit alpha: narrow {:?} wide {:?}", size.0, size.1, a.err(), b.err()), bytes)),
+            }
+        });
+        for (j, r) in jobs.iter().zip(res) {
+            rep.eval();
+            match r {
+                Ok(()) => {
+                    rep.outcome("identical");
+                    rep.nontrivial(fnv(format!("vardct-alpha{:?}", j).as_bytes()));
+                }
+                Err((k, w, bytes)) => {
+                    rep.outcome("differs");
+                    rep.violation(&k, &w, &json!({"family": "vardct-alpha", "size": [j.0 .0, j.0 .1], "alpha_bits": j.1, "filters": j.2, "stream_hex": hex(&bytes[..bytes.len().min(6000)])}));
+                }
+            }
+        }
+        rep.extra.insert("vardct_alpha_streams".into(), json!(jobs.len()));
+    }
+    rep.rule = format!("all shapes W x H over {{1..70}}{} x 13 transform stacks (none, RCT 6/13/34, squeeze default/explicit-h/explicit-vh, palette explicit/delta/implicit-delta, RCT+squeeze, 3-step squeeze, palette+squeeze) x 2 (quick) / 3 sample patterns on 12-bit images, plus all 36 tree shapes x depths 1/8/12 x layouts with extra channels; every stream declares modular_16bit_buffers only when jxlw's forward pass proves every intermediate fits i16; plus VarDCT frames (DCT8, widths 1..40 / 1..70, several heights) carrying an 8- or 12-bit Modular alpha channel, with and without Gabor + EPF; oracle: default decode == force_wide_buffers decode on every integer / float bit pattern of every channel. Non-trivial = stream is 16-bit truthful and decodes; distinct by configuration.", if quick { "" } else { " u {127,128,129,255,256,257}" });
     for i in [cfgs.len() / 2, cfgs.len() - 1] {
         rep.sample(config_json(&cfgs[i]));
     }
